@@ -5,14 +5,15 @@
 EXTENDS Slip10, Json
 CONSTANT K
 VARIABLE x
-\* scripts: n "invalid" answers followed by a deciding answer
+\* scripts: n "invalid" answers followed by a deciding answer; `wrapped`: the plug-in curve returns its invalid-key answers
+\* wrapped in another error (errors.Is still recognises them: they are invalid-key answers all the same)
 Scripts == { [j \in 1..(n + 1) |-> IF j <= n THEN "invalid" ELSE a] : n \in 0..K, a \in {"ok", "perm"} }
 Seed(k) == [i \in 1..(16 + k) |-> (i * 29 + k) % 256]
 Idx == {<<0, 0>>, <<0, 1>>, <<1, 0>>, <<1, 2147483647>>, <<0, 2147483647>>}
 Vectors ==
-  SetToSeq({[op |-> "slip10.master", in |-> [curve |-> "toy", seed |-> Seed(Len(s)), script |-> s]] : s \in Scripts})
-  \o SetToSeq({[op |-> "slip10.child", in |-> [curve |-> "toy", script |-> s, index |-> i, pub |-> p, seed |-> Seed(3)]]
-               : s \in Scripts, i \in Idx, p \in BOOLEAN})
+  SetToSeq({[op |-> "slip10.master", in |-> [curve |-> "toy", seed |-> Seed(Len(s)), script |-> s, wrapped |-> w]] : s \in Scripts, w \in BOOLEAN})
+  \o SetToSeq({[op |-> "slip10.child", in |-> [curve |-> "toy", script |-> s, index |-> i, pub |-> p, seed |-> Seed(3), wrapped |-> w]]
+               : s \in Scripts, i \in Idx, p \in BOOLEAN, w \in BOOLEAN})
 ASSUME ndJsonSerialize("gen.ndjson", Vectors)
 ASSUME PrintT(<<"VERIF-GEN", Len(Vectors)>>)
 Init == x = 0
